@@ -137,6 +137,9 @@ pub trait DynIter {
     fn next(&mut self) -> Option<u128>;
     fn next_back(&mut self) -> Option<u128>;
     fn len(&self) -> usize;
+    fn nth(&mut self, n: usize) -> Option<u128>;
+    fn nth_back(&mut self, n: usize) -> Option<u128>;
+    fn size_hint(&self) -> (usize, Option<usize>);
 }
 
 struct IterWrap<I>(I);
@@ -149,6 +152,15 @@ impl<T: Elem, I: DoubleEndedIterator<Item = T> + ExactSizeIterator> DynIter for 
     }
     fn len(&self) -> usize {
         self.0.len()
+    }
+    fn nth(&mut self, n: usize) -> Option<u128> {
+        self.0.nth(n).map(|x| x.to_u128())
+    }
+    fn nth_back(&mut self, n: usize) -> Option<u128> {
+        self.0.nth_back(n).map(|x| x.to_u128())
+    }
+    fn size_hint(&self) -> (usize, Option<usize>) {
+        self.0.size_hint()
     }
 }
 
